@@ -73,6 +73,7 @@ type vConn struct {
 	writesAfterFailure int
 	stall       bool // when the input is used up the client goes silent (Read blocks) instead of closing
 	doneCh      chan struct{} // native runs only: closed by the first Close
+	onWriteFailure func()     // called when the first Write fails
 }
 
 // vAwaitClosed (native runs of harnesses that let the library start its own
@@ -111,6 +112,9 @@ func (c *vConn) Write(p []byte) (int, error) {
 		return 0, net.ErrClosed
 	}
 	if c.failWriteAt >= 0 && c.writes > c.failWriteAt {
+		if !c.writeFailed && c.onWriteFailure != nil {
+			c.onWriteFailure()
+		}
 		c.writeFailed = true
 		return 0, errVerifIO
 	}
